@@ -721,6 +721,43 @@ func (c *Ctx) boundsJustified(in ssa.Instruction, outer []core.Lit) (string, boo
 					return sh, true, why
 				}
 			}
+			// x starts as make([]T, n, …) and only grows by append; x[n:] is in range
+			{
+				grown := true
+				nMake := 0
+				seen := map[ssa.Value]bool{}
+				var walkA func(v ssa.Value, d int)
+				walkA = func(v ssa.Value, d int) {
+					if v == nil || seen[v] || d > 8 {
+						return
+					}
+					seen[v] = true
+					switch y := v.(type) {
+					case *ssa.Phi:
+						for _, e := range y.Edges {
+							walkA(e, d+1)
+						}
+					case *ssa.Call:
+						if core.CalleeName(y.Common()) == "builtin.append" {
+							walkA(y.Common().Args[0], d+1)
+						} else {
+							grown = false
+						}
+					case *ssa.MakeSlice:
+						if core.Path(y.Len) == core.Path(lo) {
+							nMake++
+						} else {
+							grown = false
+						}
+					default:
+						grown = false
+					}
+				}
+				walkA(x, 0)
+				if grown && nMake > 0 {
+					return sh, true, "slice made with exactly the low bound as its length and only appended to since"
+				}
+			}
 			// x = make(len(A)+len(B))[len(A):]
 			if mk, ok := c.res(x).(*ssa.MakeSlice); ok {
 				if sum, ok := mk.Len.(*ssa.BinOp); ok && sum.Op == token.ADD {
